@@ -5,17 +5,31 @@
 Objects (defaults / attribute values) are reported as indices into the case's object table
 (by identity), names as strings.
 
-case: {"src": text defining f (via 0, 2) or class C / class I with a method f that appends itself
-               to _keep (via 1, 3); "_o" is the object table,
-       "objs": [python literal sources], "via": 0 fromFunction(f) | 1 fromMethod(C().f) |
-               2 fromFunction(f, imlevel=1) | 3 I['f'] of class I(Interface)}
+case: {"src": text defining f (via 0, 2) or a class with a method f that appends itself to _keep
+               (via 1: class C; 3: class I(Interface); 4: class A(abc.ABC) + class IA(ABCInterface));
+               "_o" is the object table,
+       "objs": [python literal sources],
+       "via": 0 fromFunction(f) | 1 fromMethod(C().f) | 2 fromFunction(f, imlevel=1) |
+              3 I['f'] of class I(Interface) | 4 IA['f'] of class IA(ABCInterface) with abc = A,
+       "sibling": optional.  A SEQUENCE of two descriptions in this process: first f is described
+              through the same route (answer discarded, it is judged by its own case), then a second
+              function object g, and only g's description / g's inspect view / g's fields are
+              reported:
+                {"how": "closure", "rot": r}      src is the body of a factory called twice (object
+                                                  table rotated by r the second time): g shares
+                                                  f's code object, other defaults
+                {"how": "functype", "defaults": [i..]}   g = types.FunctionType(f.__code__, ...,
+                                                  other __defaults__), same __dict__/__kwdefaults__
+                {"how": "setdefaults", "defaults": [i..]}  g = f after f.__defaults__ = (...)}
 """
 import _boot
+import abc
 import inspect
 import types
 
 from zope.interface import Interface
-from zope.interface.interface import Method, fromFunction, fromMethod
+from zope.interface.common import ABCInterface
+from zope.interface.interface import InterfaceClass, Method, fromFunction, fromMethod
 
 
 def oidx(objs, o):
@@ -36,14 +50,79 @@ def names_ok(seq):
     return isinstance(seq, (tuple, list)) and all(isinstance(x, str) for x in seq)
 
 
-def one(case):
-    objs = [eval(s, {}) for s in case["objs"]]
+def make_factory(src):
+    text = "def _make(_o, _keep, Interface, ABCInterface, abc):\n"
+    text += "".join("    " + ln + "\n" for ln in src.split("\n") if ln.strip())
+    text += "    return locals()\n"
+    ns = {}
+    exec(compile(text, "<c18 case>", "exec"), ns)
+    return ns["_make"]
+
+
+def instantiate(factory, table, via):
     keep = []
-    ns = {"_o": objs, "_keep": keep, "Interface": Interface}
-    exec(case["src"], ns)
-    via = case["via"]
+    ns = factory(table, keep, Interface, ABCInterface, abc)
     func = ns["f"] if via in (0, 2) else keep[0]
     assert isinstance(func, types.FunctionType)
+    return ns, func
+
+
+def describe(via, func, ns):
+    """-> (Method, the callable that is described).  ns None: the interface / class around func
+    is built here (func is not the function the case's class statement created)."""
+    if via == 0:
+        return fromFunction(func), func
+    if via == 1:
+        if ns is not None and ns["C"].__dict__["f"] is func:
+            target = ns["C"]().f
+        else:
+            target = types.MethodType(func, type("C", (), {})())
+        assert isinstance(target, types.MethodType) and target.__func__ is func
+        return fromMethod(target), target
+    if via == 2:
+        return fromFunction(func, imlevel=1), types.MethodType(func, object())
+    if via == 3:
+        iface = ns["I"] if ns is not None else InterfaceClass("I", (Interface,), {"f": func})
+        return iface["f"], func
+    if via == 4:
+        if ns is not None:
+            iface = ns["IA"]
+        else:
+            a = abc.ABCMeta("A", (), {"f": func})
+            iface = type(ABCInterface)("IA", (ABCInterface,), {"abc": a})
+        return iface["f"], types.MethodType(func, object())
+    raise ValueError(via)
+
+
+def one(case):
+    objs = [eval(s, {}) for s in case["objs"]]
+    via = case["via"]
+    factory = make_factory(case["src"])
+    ns, func = instantiate(factory, objs, via)
+    sib = case.get("sibling")
+    first_exc = None
+    if sib:
+        try:
+            describe(via, func, ns)[0].getSignatureInfo()       # first description of the sequence
+        except Exception as e:
+            first_exc = type(e).__name__
+        how = sib["how"]
+        if how == "closure":
+            r = sib["rot"] % len(objs)
+            ns, g = instantiate(factory, objs[r:] + objs[:r], via)
+            assert g.__code__ is func.__code__ and g is not func
+            func = g
+        elif how == "functype":
+            g = types.FunctionType(func.__code__, func.__globals__, "f",
+                                   tuple(objs[i] for i in sib["defaults"]) or None, func.__closure__)
+            g.__kwdefaults__ = func.__kwdefaults__
+            g.__dict__.update(func.__dict__)
+            func, ns = g, None
+        elif how == "setdefaults":
+            func.__defaults__ = tuple(objs[i] for i in sib["defaults"]) or None
+            ns = None if via in (3, 4) else ns
+        else:
+            raise ValueError(how)
     code = func.__code__
     out = {
         "reprs": [repr(o) for o in objs],
@@ -55,27 +134,16 @@ def one(case):
         },
         "has_dc": hasattr(func, "__defaults_count__"),
         "view_f": view(inspect.signature(func), objs),
+        "view_t": None,
     }
-    if via == 1:
-        target = ns["C"]().f
-        assert isinstance(target, types.MethodType) and target.__func__ is func
-    elif via == 2:
-        target = types.MethodType(func, object())
-    else:
-        target = func
+    if first_exc:
+        out["first_exc"] = first_exc
     try:
-        out["view_t"] = view(inspect.signature(target), objs)
-    except ValueError:       # e.g. a bound ``def f(): ...``: nothing to describe
-        out["view_t"] = None
-    try:
-        if via == 0:
-            m = fromFunction(func)
-        elif via == 1:
-            m = fromMethod(target)
-        elif via == 2:
-            m = fromFunction(func, imlevel=1)
-        else:
-            m = ns["I"]["f"]
+        m, target = describe(via, func, ns)
+        try:
+            out["view_t"] = view(inspect.signature(target), objs)
+        except ValueError:       # e.g. a bound ``def f(): ...``: inspect has nothing to bind
+            out["view_t"] = None
         assert isinstance(m, Method)
         info = m.getSignatureInfo()
         if (sorted(info) != ["kwargs", "optional", "positional", "required", "varargs"]
